@@ -17,6 +17,8 @@ typedef struct unit {
     volatile int starts, completions, expected;
     uint64_t magic;
     int revive;
+    int late_cancel; /* a cancellation request arrives after the unit's last scheduling point */
+    volatile int at_end, cancel_issued;
 } unit;
 
 static struct {
@@ -28,6 +30,7 @@ static struct {
     long protected_counter;
     int ext_done[4];
     int stacked;
+    volatile int canceller_done;
 } S;
 
 static void unit_ult(void *arg);
@@ -132,11 +135,47 @@ static void unit_enter(unit *u, void (*fn)(void *))
     SIM_CHECK(ty == (u->is_task ? ABT_UNIT_TYPE_TASK : ABT_UNIT_TYPE_THREAD), "once:wrong-kind", "unit %d runs as the wrong kind of work unit", u->id);
 }
 
+/* A unit that is going to be revived may receive a cancellation request while it is running
+ * but past its last scheduling point: it then completes normally, and the stale request must
+ * not leak into the revived incarnation, which was never cancelled. */
+static void late_cancel_window(unit *u)
+{
+    if (!u->late_cancel)
+        return;
+    u->at_end = 1;
+    while (!u->cancel_issued)
+        sim_yield();
+}
+static void canceller_main(void *arg)
+{
+    (void)arg;
+    for (;;) {
+        int pending = 0;
+        for (int i = 0; i < S.n; i++) {
+            unit *u = &S.U[i];
+            if (!u->late_cancel || u->cancel_issued)
+                continue;
+            pending = 1;
+            if (u->at_end && u->created) {
+                ABT_OK(ABT_thread_cancel(u->th));
+                u->cancel_issued = 1;
+                sim_count("c01.late_cancels_before_revive", 1);
+                sim_progress();
+            }
+        }
+        if (!pending)
+            break;
+        sim_yield();
+    }
+    S.canceller_done = 1;
+}
+
 static void unit_ult(void *arg)
 {
     unit *u = (unit *)arg;
     unit_enter(u, unit_ult);
     run_steps(u->id, AK_ULT, u->nsteps, u->steps, u->sarg);
+    late_cancel_window(u);
     u->completions++;
     sim_progress();
 }
@@ -145,6 +184,7 @@ static void unit_task(void *arg)
     unit *u = (unit *)arg;
     unit_enter(u, unit_task);
     run_steps(u->id, AK_TASKLET, u->nsteps, u->steps, u->sarg);
+    late_cancel_window(u);
     u->completions++;
     sim_progress();
 }
@@ -206,6 +246,7 @@ static void run_c01(void)
     S.n = n;
     S.next = next;
     int pn = 0, psteps[MAXU + 8], psarg[MAXU + 8]; /* primary's own steps */
+    int nlate = 0, canceller = -1;
     sim_note("C01 units=%d ext=%d: ", n, next);
     for (int i = 0; i < n; i++) {
         unit *u = &S.U[i];
@@ -262,6 +303,9 @@ static void run_c01(void)
                 u->creator_joins = 1;
         }
         u->revive = u->named && !u->creator_joins && plan_n(5) == 0;
+        /* (not with create_to: the creator gets the handle back only after the unit has run) */
+        u->late_cancel = u->revive && u->how != CR_CREATE_TO && plan_bool();
+        nlate += u->late_cancel;
         sim_note("%s%s%d<%d@%d%s%s ", u->is_task ? "T" : "U", u->named ? "n" : "u", i, parent, u->pool, u->how == CR_CREATE_TO ? "!to" : u->how == CR_ON_XSTREAM ? "!x" : "",
                  u->creator_joins ? "j" : "");
     }
@@ -271,6 +315,8 @@ static void run_c01(void)
         EX[k].idx = k;
         ext_tid[k] = sim_thread_create(ext_main, &EX[k]);
     }
+    if (nlate)
+        canceller = sim_thread_create(canceller_main, NULL);
     /* the primary creates its children; a batch of plain ULTs may go through create_many */
     {
         int batch[MAXU], nb = 0;
@@ -327,6 +373,11 @@ static void run_c01(void)
         else
             ABT_OK(ABT_thread_revive(rt->pools[u->pool], revived_fn, u, &u->th));
         sim_progress();
+    }
+    if (canceller >= 0) {
+        while (!S.canceller_done)
+            ABT_OK(ABT_thread_yield());
+        sim_thread_join(canceller);
     }
     for (int i = 0; i < n; i++) {
         unit *u = &S.U[i];
